@@ -2,7 +2,7 @@
 """Generate MANIFEST.json from props.json (claimed checks) and properties.jsonl."""
 import json, os, subprocess
 ROOT = os.path.dirname(os.path.dirname(os.path.abspath(__file__)))
-props = json.load(open(os.path.join(ROOT, "props.json")))
+props = {f[:-5]: json.load(open(os.path.join(ROOT, "props", f))) for f in sorted(os.listdir(os.path.join(ROOT, "props"))) if f.endswith(".json")}
 allp = [json.loads(l)["id"] for l in open(os.path.join(ROOT, "properties.jsonl"))]
 hooks = []
 try:
